@@ -132,7 +132,8 @@ def recurring_oracle(case: SchedCase, groups: list[Group]) -> list[str]:
         for (h, at) in g.execs:
             if h in seen:
                 seen[h].append(at)
-        if t[0] == 'sleep':
+        if t[0] in ('sleep', 'sleepl'):
+            late = int(t[2]) if t[0] == 'sleepl' else 0
             for h, s0 in start.items():
                 spec = case.specs.get(h)
                 if s0 is None or spec is None or not prod_kinds(spec) <= {'time', 'interval', 'group'}:
@@ -141,9 +142,19 @@ def recurring_oracle(case: SchedCase, groups: list[Group]) -> list[str]:
                 if want is None:
                     continue
                 got = [x for x in seen[h] if x > s0]
-                if got != want:
-                    miss = [x for x in want if x not in got][:3]
-                    extra = [x for x in got if x not in want][:3]
+                # a wake-up that is `late` ns late starts the job at most that much after the occurrence; occurrences
+                # that fall between an occurrence and the (late) start of its run are over when the job is rescheduled
+                ok, i = True, 0
+                for x in got:
+                    if i >= len(want) or not (want[i] <= x <= want[i] + late):
+                        ok = False
+                        break
+                    i += 1
+                    while late and i < len(want) and want[i] <= x:
+                        i += 1
+                if not ok or i != len(want):
+                    miss = [w for w in want if not any(w <= x <= w + late for x in got)][:3]
+                    extra = [x for x in got if not any(w <= x <= w + late for w in want)][:3]
                     out.append(f'group {gi}: job {h} ({prod_sx(spec)[:120]}, zone {case.tz}) executed at {len(got)} instants, its trigger has '
                                f'{len(want)} occurrences in ({s0}, {g.now}]: missing {miss}, unexpected {extra}')
                     return out
